@@ -43,7 +43,8 @@ def generate(rng, tier):
     for b in base:
         k = b["call"]
         call = {"axes": k["axes"], "to": k["to"], "boundary": k["boundary"], "fill": k["fill"]}
-        cases.append({"kind": 0, "ctor": b["ctor"], "dims": b["dims"], "vals": b["vals"], "call": call})
+        cases.append({"kind": 0, "ctor": b["ctor"], "dims": b["dims"], "vals": b["vals"], "call": call,
+                      "dtype": b.get("dtype", "float64")})
     # inverse: center data, to outer, fill 0
     n = 60 if tier == "quick" else 1000
     for _ in range(n):
@@ -65,7 +66,8 @@ def generate(rng, tier):
             size *= l
         vals = [(5 * i * i + i + 3) % 17 - 4 for i in range(size)]
         call = {"axes": op_axes, "to": "outer", "boundary": "fill", "fill": 0}
-        cases.append({"kind": 1, "ctor": ctor, "dims": dims, "vals": vals, "call": call})
+        cases.append({"kind": 1, "ctor": ctor, "dims": dims, "vals": vals, "call": call,
+                      "dtype": rng.choice(["float64", "float64", "int64", "float32"])})
     return cases
 
 
@@ -87,7 +89,8 @@ def run_impl(case):
     ds, g, sizes = G.build_grid(c, with_coords=True)
     k = case["call"]
     shape = [l for _, l in case["dims"]]
-    da = xr.DataArray(np.array(case["vals"], dtype=float).reshape(shape), dims=[d for d, _ in case["dims"]])
+    da = xr.DataArray(np.array(case["vals"], dtype=case.get("dtype", "float64")).reshape(shape),
+                      dims=[d for d, _ in case["dims"]])
     axis = k["axes"] if len(k["axes"]) > 1 else k["axes"][0]
     try:
         r = g.cumsum(da, axis, **_kwargs(k))
